@@ -363,8 +363,12 @@ class Connection(ExportImport):
                 transaction_manager=self.transaction_manager,
                 before=self.before,
             )
+            # The connection may come from the pool with secondary
+            # connections of its own: they all join this group.
+            adopted = list(new_con.connections.values())
             self.connections.update(new_con.connections)
-            new_con.connections = self.connections
+            for adopted_con in adopted:
+                adopted_con.connections = self.connections
             connection = new_con
         return connection
 
